@@ -4,7 +4,7 @@ import json
 from harness import common, render, render_check, tlc
 
 
-def run(pid, tier, cases, fields, assumptions, rule, batch=4000, extra_cov=None):
+def run(pid, tier, cases, fields, assumptions, rule, batch=4000, extra_cov=None, extra_stage=None):
     """cases: generator-AST cases.  fields: the observables this property talks about."""
     V = common.Verdicts(pid, tier)
     states = trans = nexp = 0
@@ -40,6 +40,11 @@ def run(pid, tier, cases, fields, assumptions, rule, batch=4000, extra_cov=None)
            'cases': len(cases), 'behaviours_exported': nexp, 'observables': fields, 'rule': rule,
            'exhaustive': True, 'samples': samples}
     cov.update(extra_cov or {})
+    if extra_stage is not None:
+        more = extra_stage(V, tier)
+        cov['states'] += more.pop('tree_states', 0)
+        cov.update(more)
+        cov['traces_validated_against_impl'] = V.counters.get('behaviours_conform', 0)
     return V.finish(cov, assumptions=assumptions)
 
 
